@@ -872,27 +872,29 @@ def validator_table(F, rep):
                v.loc(), key=f"R5:validate:{key[0]}.{key[1]}")
 
 
-def errors_not_dropped(F, rep, rule="R7"):
+def errors_not_dropped(F, rep, rule="R7", scope=None):
     """R7 (a refusal is never turned into an absence): in the calculation and in the front-ends, the `Result` of a workspace function is
     not handed to `.ok()`, `.unwrap_or*()`, `.is_ok()` or `.map_or*()`. "A complete result or a clean error": a disposal whose date
     `TaxPeriod::from_date` refuses must fail the run — `filter_map(|m| from_date(m.date).ok())` produces a report that simply lacks
     that disposal (seeded change C15-s8). Expected count on today's tree: zero."""
     bodies = [b for b in F.bodies.values() if P.user_written(F, b) and (
         b.id.startswith("cgt_core::calculator") or b.id.startswith("cgt_core::matcher") or b.crate in ("cgt_cli", "cgt_mcp", "cgt_wasm"))]
+    if scope is not None:
+        bodies = [b for b in bodies if scope(b)]
     bad = P.dropped_errors(F, bodies)
     for b, site, h, how in bad:
         rep.ob(rule, f"{b.short}:{h.short}:{how}", False, f"`{b.short}` hands the result of `{h.short}` to `.{how}()`: what `{h.short}` refuses is silently left out "
                "of the result instead of failing the run (a partial report)", site, key=f"{rule}:{b.short}:{h.short.split('::')[-1]}:{how}")
-    rep.ob(rule, "errors:not-turned-into-absence", not bad, f"no workspace `Result` is discarded by ok/unwrap_or/is_ok/map_or in {len(bodies)} calculation and front-end bodies" if not bad else
+    rep.ob(rule, "errors:not-turned-into-absence", not bad, f"no workspace `Result` is discarded by ok/unwrap_or/is_ok/map_or/flat_map/flatten in {len(bodies)} calculation and front-end bodies" if not bad else
            f"{len(bad)} workspace results are discarded", "", key=f"{rule}:errors:dropped")
 
 
 def controls(pctx, rep):
     try:
         Fp = pctx.F
-        bad = P.dropped_errors(Fp, [Fp.one("error_dropped"), Fp.one("error_propagated")] + [b for b in Fp.bodies.values() if b.kind == "closure" and ("error_dropped" in b.id or "error_propagated" in b.id)], crate_prefixes=("posctl",))
+        bad = P.dropped_errors(Fp, [Fp.one("error_dropped"), Fp.one("error_propagated"), Fp.one("error_flattened")] + [b for b in Fp.bodies.values() if b.kind == "closure" and ("error_dropped" in b.id or "error_propagated" in b.id or "error_flattened" in b.id)], crate_prefixes=("posctl",))
         names = sorted({b.id.split("::{")[0].split("::")[-1] for b, _, _, _ in bad})
-        rep.control("R7:dropped-error", names == ["error_dropped"], f"posctl: results discarded in {names} (expected ['error_dropped'])")
+        rep.control("R7:dropped-error", names == ["error_dropped", "error_flattened"], f"posctl: results discarded in {names} (expected ['error_dropped', 'error_flattened'])")
     except Exception as e:
         rep.control("R7:dropped-error", False, f"dropped-error detector failed on posctl: {e}")
     _controls_rest(pctx, rep)
